@@ -125,6 +125,13 @@ def check_equivalence(rec, sig, idx):
         n0, p0 = lst[pi][ai][qi]
         lst[pi][ai][qi] = (n0, G.POSITIONS[(G.POSITIONS.index(p0) + 1) % 5])
         variants.append(tuple([tuple(a) for a in part] for part in lst))
+    # (e) the two pairs of one argument in the other order
+    for pi, part in enumerate(sig):
+        for ai, a in enumerate(part):
+            if len(a) == 2:
+                lst = [[list(x) for x in prt] for prt in sig]
+                lst[pi][ai] = [lst[pi][ai][1], lst[pi][ai][0]]
+                variants.append(tuple([tuple(map(tuple, x)) for x in prt] for prt in lst))
     # (d) the same arguments in the same order with '->' at another place
     allargs = list(sig[0]) + list(sig[1])
     for k in range(1, len(allargs)):
@@ -213,6 +220,39 @@ def annotated_hints(sig, spaces=0):
     rets = [Annotated[np.ndarray, wrap(sep.join(f"{n}{col}{p}" for n, p in a))] for a in outs]
     ann["return"] = rets[0] if len(rets) == 1 else Tuple[tuple(rets)]
     return ann
+
+
+def annotated_text(sig):
+    """the same hints written as text (quoted annotations, or a module under `from __future__ import annotations`)"""
+    ins, outs = sig
+    txt = lambda a: 'Annotated[np.ndarray, "%s"]' % ",".join(f"{n}:{p}" for n, p in a)
+    ann = {f"a{i}": txt(a) for i, a in enumerate(ins)}
+    rets = [txt(a) for a in outs]
+    ann["return"] = rets[0] if len(rets) == 1 else "Tuple[%s]" % ", ".join(rets)
+    return ann
+
+
+def check_decorated(rec, sig, as_text):
+    """the public route: as_grid_ufunc() without a signature reads the function's type hints"""
+    from xgcm.grid_ufunc import as_grid_ufunc
+
+    if any(len(a) == 0 for part in sig for a in part):
+        return
+    text = G.unparse(sig)
+    case = dict(kind="decorated", text=text, as_text=as_text)
+    ins, _ = sig
+    ns = {"np": np, "Annotated": Annotated, "Tuple": Tuple}
+    exec("def f(%s):\n    return None" % ", ".join(f"a{i}" for i in range(len(ins))), ns)
+    f = ns["f"]
+    f.__annotations__ = annotated_text(sig) if as_text else annotated_hints(sig)
+    rec.case(("dec", text, as_text), True)
+    try:
+        s = as_grid_ufunc()(f).signature
+    except Exception as e:
+        rec.violation("annotated", ("text-hints:" if as_text else "hints:") + "raise:" + exc_sig(e), case, text, f"{type(e).__name__}: {e}"[:160])
+        return
+    if attrs(s) != expected_attrs(sig):
+        rec.violation("annotated", ("text-hints:" if as_text else "hints:") + "differs-from-string-form", case, expected_attrs(sig), attrs(s))
 
 
 def check_annotated(rec, sig, spaces=0):
@@ -304,6 +344,8 @@ def run_shard(shard, tier, seed, rec):
                 check_annotated(rec, sig)
                 if (idx // 4) % 3 == 0:
                     check_annotated(rec, sig, spaces=1 + (idx // 12) % 2)
+                if (idx // 4) % 2 == 0:
+                    check_decorated(rec, sig, as_text=(idx // 8) % 2 == 0)
 
 
 def replay_case(case, seed, rec):
@@ -312,6 +354,8 @@ def replay_case(case, seed, rec):
         check_wellformed(rec, G.parse(case["text"]), False, text=case["text"])
     elif k == "corrupt":
         check_corrupted(rec, case["origin"], case["text"])
+    elif k == "decorated":
+        check_decorated(rec, G.parse(case["text"]), case["as_text"])
     elif k == "annotated":
         check_annotated(rec, G.parse(case["text"]), case.get("spaces", 0))
     elif k == "pool":
